@@ -111,6 +111,39 @@ Theorem spec_ok_sound : forall allow napps l,
 Proof. exact Proofs.C21.spec_ok_sound. Qed.
 Print Assumptions spec_ok_sound.
 
+(* the in-order part ([order_prop], Model/C21.v): the verdict follows the answers the applications
+   WOULD give in application order — not only those the implementation chose to collect: an
+   allowlisted peer is admitted; a peer whose first answer that is not No is a Yes is admitted
+   unless an earlier "not recognised" verdict for it is reused; any other peer is not admitted
+   unless an earlier admission of it is reused.  (An error collected AFTER an application has
+   already recognised the peer therefore does not justify a rejection.) *)
+Theorem spec_ok_order_sound : forall allow napps l,
+  spec_ok allow napps l = true ->
+  forall pre o post, l = pre ++ o :: post -> order_prop allow pre o.
+Proof. exact Proofs.C21.spec_ok_order_sound. Qed.
+Print Assumptions spec_ok_order_sound.
+
+(* first validation of a peer that is not allowlisted: admitted iff there is a Yes before any
+   Err in application order *)
+Theorem spec_ok_first_visit : forall allow napps l,
+  spec_ok allow napps l = true ->
+  forall pre o post, l = pre ++ o :: post ->
+    ~ In (ob_peer o) allow -> (forall e, In e pre -> ob_peer e <> ob_peer o) ->
+    (ob_result o = Admit <-> first_is Yes (ob_answers o)).
+Proof. exact Proofs.C21.spec_ok_first_visit. Qed.
+Print Assumptions spec_ok_first_visit.
+
+(* every admission of a peer that is not allowlisted goes back to a validation of the same peer
+   (this one or an earlier one) that was admitted with a Yes before any Err in order *)
+Theorem spec_ok_admit_justified : forall allow napps l,
+  spec_ok allow napps l = true ->
+  forall pre o post, l = pre ++ o :: post -> ob_result o = Admit ->
+    In (ob_peer o) allow \/
+    exists e, In e (pre ++ [o]) /\ ob_peer e = ob_peer o /\ ob_result e = Admit
+              /\ first_is Yes (ob_answers e).
+Proof. exact Proofs.C21.spec_ok_admit_justified. Qed.
+Print Assumptions spec_ok_admit_justified.
+
 Theorem model_passes_spec : forall allow napps steps,
   Forall (fun s => length (snd s) = napps) steps ->
   spec_ok allow napps (model_trace allow empty steps) = true /\
